@@ -209,7 +209,9 @@ pub fn san_simple_pawn_refused<S: Src>(s: &mut S) {
     let b = owlchess::Board::initial();
     let file = if s.bool() { Some(File::from_index(s.below(8) as usize)) } else { None };
     let rank = if s.bool() { Some(Rank::from_index(s.below(8) as usize)) } else { None };
-    let d = Data::Simple { piece: Piece::Pawn, file, rank, is_capture: s.bool(), dst: Coord::from_index(s.below(64) as usize) };
+    // destination fixed (e4): the refusal does not depend on it, and a symbolic destination drags the candidate
+    // search (13 GB) into a query about a guard that precedes it
+    let d = Data::Simple { piece: Piece::Pawn, file, rank, is_capture: s.bool(), dst: Coord::from_index(36) };
     let r = d.into_move(&b);
     vassert!("a SAN piece-move value naming a pawn is refused with an error (no panic)", r.is_err());
     let mut bc = b.clone();
